@@ -517,10 +517,12 @@ class CommandMixin(object):
         if not isinstance(mid, str):
             return
         ms = spec.to_ms(sub.pre)
-        out = spec.open_apply(ms, app, mid, side, now)
-        if out == "foreign":
-            self._f7(sub, app, mid)
-            return
+        # (an id that lives in another app: if the server raises, that is known finding
+        # F7 and was handled before we got here; if it answers, it is judged like any
+        # other open against per-app ids, as the protocol document scopes them)
+        if sub.pre.mb(app, mid) is None and sub.pre.mb_any(mid):
+            self.probes["foreign_mailbox_id_answered"] += 1
+        out = spec.open_apply(ms, app, mid, side, now, per_app=True)
         k = (app, mid)
         rec = self.mb_inc.get(k)
         adm = self._adm(rec)
@@ -667,10 +669,7 @@ class CommandMixin(object):
         errored = [f for f in rest if f.get("type") == "error"]
         self._no_others("C08", sub, "close")
         if not cm.held:
-            out = spec.open_apply(ms, app, mid, side, now)
-            if out == "foreign":
-                self._f7(sub, app, mid)
-                return
+            out = spec.open_apply(ms, app, mid, side, now, per_app=True)
             ev.notes.setdefault("_att", []).append((k, None, side))
             verdict = self._admission(rec, side)
             if verdict is None:
